@@ -63,6 +63,62 @@ func H_C11_Promise() {
 	})
 }
 
+// c11TwoSetters: two concurrent SetResult calls and one awaiter of the given flavour.
+func c11TwoSetters(flavour int) {
+	p := promise.NewPromise[int]()
+	errB := errors.New("b")
+	bCanceled := vrt.Bool("b-error-is-canceled")
+	var wins [2]bool
+	vrt.Go("set-a", func() { wins[0] = p.SetResult(1, nil) })
+	vrt.Go("set-b", func() {
+		if bCanceled {
+			wins[1] = p.SetResult(2, context.Canceled)
+		} else {
+			wins[1] = p.SetResult(2, errB)
+		}
+	})
+	got, cancelled := 0, false
+	vrt.Go("await", func() {
+		var v int
+		var err error
+		switch flavour {
+		case 0:
+			v, err = p.Await(context.Background())
+		case 1:
+			errCh := make(chan error, 1)
+			v, err = p.AwaitWithErrCh(context.Background(), errCh)
+		default:
+			ctx, cancel := context.WithCancel(context.Background())
+			vrt.CancelAnytime(cancel)
+			v, err = p.AwaitWithCancelCh(ctx, nil)
+			if err == context.Canceled && v == 0 {
+				vrt.Cover("await-cancelled")
+				cancelled = true
+				return
+			}
+		}
+		okA := v == 1 && err == nil
+		okB := v == 2 && ((bCanceled && err == context.Canceled) || (!bCanceled && err == errB))
+		vrt.Assert(okA || okB, "await-result-is-a-set-result")
+		got = v
+	})
+	vrt.AtQuiescence(func() {
+		vrt.Assert(wins[0] != wins[1], "exactly-one-setresult-wins")
+		want := 1
+		if wins[1] {
+			want = 2
+		}
+		if !cancelled {
+			vrt.Assert(got == want, "awaiter-sees-the-winning-result")
+		}
+	})
+}
+
+// H_C11_Promise_Await / _ErrCh / _CancelCh: two racing SetResult calls and one awaiter.
+func H_C11_Promise_Await()    { c11TwoSetters(0) }
+func H_C11_Promise_ErrCh()    { c11TwoSetters(1) }
+func H_C11_Promise_CancelCh() { c11TwoSetters(2) }
+
 // H_C11_CanceledResult: a PromiseContainer awaiter (each of the three flavours, symbolic)
 // returns a result whose error is context.Canceled instead of looping on it.
 func H_C11_CanceledResult() {
